@@ -4,7 +4,7 @@ import z3
 
 from . import front
 from .ty import (TInt, TReal, TBool, TStr, TNone, TAny, TTuple, TRec, TList, TDict, TSet, TOpt,
-                 TUnion, TObj, TFunc)
+                 TUnion, TObj, TFunc, TLin)
 from .vals import *  # noqa
 from .symex import (Exec, State, Frame, Obligation, t_and, t_or, t_not, t_ite, to_real, SPEC_BUILTINS)
 
@@ -254,15 +254,22 @@ class Interp(Exec):
 
     def ev_JoinedStr(self, node, st):
         parts = []
+        template, holes = "", []
         for p in node.values:
             if isinstance(p, ast.Constant):
                 parts.append(z3.StringVal(p.value))
+                template += p.value
             else:
-                v = self.ev(p.value, st)
-                parts.append(self.to_str(st, v, p.format_spec))
+                v = self.force(st, self.ev(p.value, st))
+                holes.append(v)
+                template += "{}"
+                try:
+                    parts.append(self.to_str(st, v, p.format_spec))
+                except Unsupported:
+                    parts.append(self.fresh(st, "str", z3.StringSort()))
         if not parts:
             return VStr("")
-        return VStr(parts[0] if len(parts) == 1 else z3.Concat(*parts))
+        return VStr(parts[0] if len(parts) == 1 else z3.Concat(*parts), template, holes)
 
     def to_str(self, st, v, fmt=None):
         v = self.force(st, v)
@@ -863,7 +870,8 @@ BUILTIN_CLASSES = {
     "ZeroDivisionError", "AldyException", "NoSolutionsError", "defaultdict", "Counter", "NoneType", "object",
 }
 
-SPEC_FUNCS = {"forall", "exists", "implies", "iff", "old", "fresh", "bigsum", "result", "ite", "is_none",
+SPEC_FUNCS = {"newvar", "newvar_at", "emits", "emitted", "lp_binary", "lp_integer", "lp_lb", "lp_ub", "lp_name",
+              "lp_inf", "lp_families", "lp_isvar", "family", "lp_objective", "lp_setobjective", "forall", "exists", "implies", "iff", "old", "fresh", "bigsum", "result", "ite", "is_none",
               "abstract", "seq_filter", "domain", "count", "typed", "sameobj", "opaque", "the"}
 
 ENUMS = {"CNConfigType": {"DEFAULT": 0, "LEFT_FUSION": 1, "RIGHT_FUSION": 2, "DELETION": 3, "CUSTOM": 4}}
